@@ -68,21 +68,31 @@ def workflow(draw):
         "rep": draw(st.sampled_from([False, False, False, True])),
         "samename": draw(st.sampled_from([False, False, True])),
     }
+    # a deliberate shape: X in stage 0, X again in stage 1, and a consumer in stage 1 referencing both
+    flags["twins"] = (not flags["rep"]) and draw(st.sampled_from([False] * 7 + [True]))
+    if flags["twins"]:
+        flags["samename"] = True
     if flags["rep"]:
         # replication rewrites reference text; names containing one another are C03's subject, not this property's
         flags["samename"] = False
     ncomp = draw(st.sampled_from([1, 2, 2, 3, 3, 3, 4, 5]))
+    if flags["twins"]:
+        ncomp = max(ncomp, 3)
     W = {"flags": flags, "comps": [], "input": {}, "data": {}, "ext": {}, "ddir": {}, "produced": {},
          "gvars": {}, "stage_names": {}, "N": draw(st.integers(2, 3)) if flags["rep"] else 0, "extdir": "e0"}
     stage = 0
     used = set()
     rep = []           # replicated? per comp
     for i in range(ncomp):
-        if i > 0 and draw(st.booleans()):
+        if flags["twins"] and i in (1, 2):
+            stage = 1
+        elif i > 0 and draw(st.booleans()):
             stage += 1
         # name: unique within the stage, optionally re-using a name of an earlier stage
         name = None
-        if flags["samename"] and i > 0 and draw(st.booleans()):
+        if flags["twins"] and i == 1:
+            name = W["comps"][0]["name"]
+        elif flags["samename"] and i > 0 and draw(st.booleans()):
             cand = draw(st.sampled_from([c["name"] for c in W["comps"]]))
             if (stage, cand) not in used:
                 name = cand
@@ -536,7 +546,7 @@ def mutation(draw, W):
             for r in cc["refs"]:
                 if r["t"] == "comp":
                     options += ["exe@%d" % r["j"]] * 2
-            options += ["restage", "restage"]
+            options += ["restage"] * 8
     # Hypothesis prefers the first element of a sampled_from; rotate by a function of W so that the preferred
     # mutation kind differs from workflow to workflow (deterministic in W, no randomness of our own)
     rot = _stable_hash(W) % len(options)
